@@ -6,6 +6,7 @@ package main
 import (
 	"encoding/json"
 	"fmt"
+	"go/ast"
 	"go/types"
 	"os"
 	"os/exec"
@@ -457,7 +458,11 @@ func rewriteCalls(s string, olds *[]string) string {
 			case "ite":
 				rep = "func() (r_ interface{}) { if " + args[0] + " { return " + args[1] + " }; return " + args[2] + " }()"
 				// typed ite cannot be expressed without the type; use generic helper with closures
-				rep = "iteLazy(" + args[0] + ", func() any { return " + args[1] + " }, func() any { return " + args[2] + " })"
+				T := "any"
+				if len(iteTypeQueue) > 0 {
+					T, iteTypeQueue = iteTypeQueue[0], iteTypeQueue[1:]
+				}
+				rep = "iteLazy(" + args[0] + ", func() " + T + " { return " + args[1] + " }, func() " + T + " { return " + args[2] + " })"
 			case "forall":
 				rep = "func() bool { for " + args[0] + " := (" + args[1] + "); " + args[0] + " < (" + args[2] + "); " + args[0] + "++ { if !(" + strings.Join(args[3:], ",") + ") { return false } }; return true }()"
 			case "exists":
@@ -648,7 +653,9 @@ func genReplayTest(w *World, e *Encoder, o *Obligation, ims []*inputModel) (stri
 	checkExpr := ""
 	var olds []string
 	if o.Kind == "ensures" && o.Expr != "" {
+		iteTypeQueue = iteTypes(o.Clause, q, noteImports)
 		checkExpr, olds = goClause(o.Expr, resNames)
+		iteTypeQueue = nil
 		for k, ox := range olds {
 			fmt.Fprintf(&body, "\told%d_ := %s\n", k, ox)
 		}
@@ -673,7 +680,7 @@ func genReplayTest(w *World, e *Encoder, o *Obligation, ims []*inputModel) (stri
 		fmt.Fprintf(&src, "\t%s %q\n", name, path)
 	}
 	src.WriteString(")\n\nvar _ = strings.Contains\nvar _ = os.Exit\n\n")
-	src.WriteString("func iteLazy(c bool, a, b func() any) any {\n\tif c {\n\t\treturn a()\n\t}\n\treturn b()\n}\n\n")
+	src.WriteString("func iteLazy[T any](c bool, a, b func() T) T {\n\tif c {\n\t\treturn a()\n\t}\n\treturn b()\n}\n\n")
 	src.WriteString("func TestVerifReplay(t *testing.T) {\n")
 	src.WriteString("\tdefer func() {\n\t\tif r := recover(); r != nil {\n\t\t\tfmt.Printf(\"VERIF-REPLAY: panic: %v\\n\", r)\n\t\t}\n\t}()\n")
 	src.WriteString(pre.String())
@@ -880,4 +887,35 @@ func genNIReplay(w *World, e *Encoder, o *Obligation, ims []*inputModel, pkg *ty
 	src.WriteString(body.String())
 	src.WriteString("}\n")
 	return src.String(), true, ""
+}
+
+// iteTypeQueue: the static types of the ite(...) calls of the clause being rewritten, in source order
+// (the textual rewriting in rewriteCalls meets them in the same order).
+var iteTypeQueue []string
+
+func iteTypes(cl *Clause, q types.Qualifier, note func(types.Type)) []string {
+	if cl == nil || cl.Expr == nil || cl.Info == nil {
+		return nil
+	}
+	var out []string
+	ast.Inspect(cl.Expr, func(n ast.Node) bool {
+		call, ok := n.(*ast.CallExpr)
+		if !ok {
+			return true
+		}
+		if id, ok := call.Fun.(*ast.Ident); ok && id.Name == "ite" && len(call.Args) == 3 {
+			t := cl.Info.TypeOf(call)
+			if t == nil {
+				out = append(out, "any")
+				return true
+			}
+			if b, ok := t.(*types.Basic); ok && b.Info()&types.IsUntyped != 0 {
+				t = types.Default(t)
+			}
+			note(t)
+			out = append(out, types.TypeString(t, q))
+		}
+		return true
+	})
+	return out
 }
